@@ -60,6 +60,8 @@ func init() {
 				treeRejectionsRule(P, R, "C06.i", "issue", "the credential construction call tree")
 				treeRejectionsRule(P, R, "C06.i", "show", "the verification call tree")
 			}},
+		Rule{ID: "C06.j", Explain: "aliasing discipline: issuance messages and the builder state are not modified in place - no function mutates in place a big.Int it reached through gabi.CredentialBuilder / gabi.IssueSignatureMessage / gabi.IssueCommitmentMessage / gabi.Credential (math/big mutators write their receiver), except the tabled merge/refresh functions.",
+			Run: func(P *Program, R *Report) { inPlaceDisciplineRule(P, R, "C06.j", "gabi.CredentialBuilder", "gabi.IssueSignatureMessage", "gabi.IssueCommitmentMessage", "gabi.Credential") }},
 		Rule{ID: "C06.h", Explain: "the signature check used by ConstructCredential enforces the e interval and primality (C05.a run under this property).",
 			Run: func(P *Program, R *Report) {
 				sub := newReport(R.Prop, R.Tier, P)
